@@ -30,6 +30,8 @@ CLAIMED = {
             _LV + "C08: rendered literals evaluate to equal values of exactly the same type; absent fields hold the true default; the real constructor runs once.", _NOTE, "DESIGN.md 5/C08"),
     "C09": ("CrossHair symbolic execution of the real router/combiner/request bus with symbolic recipes (inductive step form) and of chained loaders on symbolic ints",
             _LV + "C09: first-match routing, no double consultation, Chain.FIRST/LAST composition, extend/replace/retort-in-recipe.", _NOTE, "DESIGN.md 5/C09"),
+    "C10": ("CrossHair symbolic execution of the real LocStackEndChecker/combinators over stub checkers with symbolic truth tables and of string predicates on a symbolic field id; class-predicate matrix and identities by labelled native enumeration",
+            _LV + "C10: chain semantics, pointwise combinators, string predicates (identifier vs regex), documented identities.", _NOTE, "DESIGN.md 5/C10"),
     "C11": ("differential warmed-retort vs fresh-retort closures on a symbolic datum (CrossHair + z3) + cache-key soundness of the real cached_call",
             _LV + "C11: histories over a pool of mutually confusable types are enumerated natively (stated as enumeration), the datum is symbolic.", _NOTE, "DESIGN.md 5/C11"),
     "C15": ("differential loaders of equivalent spellings on a symbolic datum (CrossHair + z3); structural congruence by labelled native enumeration",
